@@ -144,3 +144,4 @@ def oracle(line, out, expect):
                 if not lenient and not res.startswith("err:"): return "step %d: strict write outside the window returned %s" % (i, res)
             if nev: return "step %d: bitmap events on a write" % i
     return None
+from ties import of as _tie_of; TIE_LAYOUTS, TIE_PINS, TIE_ENUMS = _tie_of("C12")   # static-tie lemmas (coq/Gen/Tie) this property depends on
